@@ -855,11 +855,11 @@ Proof.
   - destruct all; inversion H; subst; [apply WF_set_pc|apply WF_finish]; apply WF_updT; auto; apply keeps_lk.
   - destruct (lk (th s k)); [discriminate|]. inversion H; subst. apply WF_set_pc, WF_updT; auto. apply keeps_lk.
   - (* PInLocked *)
-    destruct (tstate_eqb_spec (st (th s k)) SLEEPING) as [Hs|Hs]; inversion H; subst; apply WF_set_pc; auto.
+    destruct (tstate_eqb_spec (st (th s k)) SLEEPING) as [Hs|Hs]; [destruct (0 <? e)|]; simpl in H; inversion H; subst; apply WF_set_pc; auto.
     apply WF_wake_by; [apply WF_updT; auto; apply keeps_wkerr|]. rewrite th_updT_same. exact Hs.
   - destruct o; inversion H; subst; [apply WF_set_pc|apply WF_finish]; apply WF_updT; auto; apply keeps_lk.
   - destruct (tstate_eqb _ READY && (err (th s k) =? 0)); inversion H; subst; [now apply WF_set_pc|now apply WF_finish].
-  - inversion H; subst. apply WF_finish, WF_updT; auto. apply keeps_err.
+  - destruct (0 <? e); inversion H; subst; [apply WF_finish, WF_updT; auto; apply keeps_err|now apply WF_finish].
 Qed.
 
 Lemma WF_idle_decide s v cnt : WF s -> WF (idle_decide s v cnt).
